@@ -1,4 +1,6 @@
 import PromModel.Remote.QueueShards
+import PromModel.Remote.WriteRelabel
+import PromModel.Suites.RelabelSuite
 /-
   Suite `rwsend` (C40): a real `remote.QueueManager` against a scripted fake endpoint
   (harness/suites/rwsend/main.go describes the ops).
@@ -14,8 +16,72 @@ import PromModel.Remote.QueueShards
   judge   The property statement on the OBSERVATIONS carried by the `end` op line (raw per-series receive
           sequences, which samples the endpoint stored before answering with an error, which batches it
           refused for good), using only the ops — not the model.
+
+  Labels (`WriteRelabel.storeLabels`): whether a `series`/`lseries` op is kept or dropped and which label set
+  its samples must arrive with is computed HERE (model and judge), from the external labels (`ext` op), the
+  write_relabel_configs (`rule` ops, the line format of suite `relabel`) and the series' own labels, in the
+  documented order: external labels merged without overriding a series label, then relabelling.  The harness
+  reports, per ref, the label sets its samples arrived with (`lbl=` of the `end` output); samples are attributed
+  to refs by their id, never by their labels.  Without `rl=1` in the cfg line the case uses the fixed legacy
+  configuration (external labels ext="e", zone="z"; rules: drop d=~"1", replace s → t="x$1").
 -/
 namespace Prom.QueueShards
+open Prom.Relabel (Label Config parseRule? parsePairs? renderListing parseListing? sortLabels compile?)
+
+/-! ### external labels + write relabel configs of a case -/
+
+structure RL where
+  ext : List Label := []
+  cfgs : List Config := []
+
+def legacyRL : RL :=
+  let rx (p : String) : Relabel.Regex := ((compile? p).getD default).toRegex false
+  { ext := [⟨"ext", "e"⟩, ⟨"zone", "z"⟩],
+    cfgs := [
+      { action := .drop, sourceLabels := ["d"], separator := ";", regex := rx "1", modulus := 0,
+        targetLabel := "", replacement := "$1", utf8 := true },
+      { action := .replace, sourceLabels := ["s"], separator := ";", regex := rx "(.*)", modulus := 0,
+        targetLabel := "t", replacement := "x$1", utf8 := true }] }
+
+/-- labels of the legacy `series <ref> <lid> <kind> <seg>` op -/
+def legacyLabels (lid kind : String) : List Label :=
+  let base : List Label := [⟨"__name__", "m"⟩, ⟨"s", lid⟩]
+  if kind == "drop" then base ++ [⟨"d", "1"⟩] else if kind == "own" then base ++ [⟨"ext", "own"⟩] else base
+
+/-- `StoreSeries` of one series under the case's configuration: `none` = dropped. -/
+def RL.store (rl : RL) (ls : List Label) : Option (List Label) :=
+  WriteRelabel.storeLabels (sortLabels rl.ext) rl.cfgs (sortLabels ls)
+
+/-- A declaration op: (ref, segment, the series' own labels). -/
+def parseDecl? (ts : List String) : Option (Nat × Nat × List Label) :=
+  match ts with
+  | ["series", ref, lid, kind, seg] => some (ref.toNat?.getD 0, seg.toNat?.getD 0, legacyLabels lid kind)
+  | "lseries" :: ref :: seg :: pairs => (parsePairs? pairs).map fun ls => (ref.toNat?.getD 0, seg.toNat?.getD 0, ls)
+  | _ => none
+
+/-- Configuration ops (`ext`, `rule`); only before the first feed op and only with `rl=1`.
+    Returns the new configuration and the output line. -/
+def RL.cfgOp (rl : RL) (explicit started : Bool) (ts : List String) : Option (RL × String) :=
+  match ts with
+  | "ext" :: pairs =>
+    if !explicit || started then some (rl, "bad-op") else
+    match parsePairs? pairs with
+    | some ls => some ({ rl with ext := ls }, "ok")
+    | none => some (rl, "bad-op")
+  | "rule" :: rest =>
+    if !explicit || started then some (rl, "bad-op") else
+    match parseRule? rest with
+    | some r => if r.cfg.validate then some ({ rl with cfgs := rl.cfgs ++ [r.cfg] }, "ok") else some (rl, "invalid")
+    | none => some (rl, "unsupported")
+  | _ => none
+
+/-- `<ref>=<listing>[|<listing>…];…` ↦ [(ref, listings)] -/
+def parseLbl (s : String) : List (Nat × List String) :=
+  if s = "-" || s = "" then [] else
+  (s.splitOn ";").filterMap fun p =>
+    match p.splitOn "=" with
+    | [r, ls] => r.toNat?.map fun r => (r, ls.splitOn "|")
+    | _ => none
 
 /-! ### small parsing helpers -/
 
@@ -65,6 +131,10 @@ structure Drv where
   hardSeen : Bool := false
   segs : List (Nat × Nat) := []        -- seriesSegmentIndexes
   trace : List Act := []               -- the schedule, newest first
+  rl : RL := legacyRL
+  explicit : Bool := false             -- cfg rl=1
+  started : Bool := false              -- a feed op was seen (the QueueManager exists)
+  lbls : List (Nat × List Label) := [] -- seriesLabels (latest StoreSeries that kept the ref)
 
 def Drv.act (d : Drv) (a : Act) : Drv :=
   if d.stuck then d else
@@ -104,15 +174,29 @@ def stopShards (d : Drv) (hard : Bool) : Drv :=
   else
     (List.range d.s.n).foldl (fun d i => (drainShard (d.act (.flush i)) i 100000).act (.exit i)) d
 
+/-- `recv`'s companion: for every ref the endpoint received something of, the label set it must carry. -/
+def showLbls (log : List Sample) (lbls : List (Nat × List Label)) : String :=
+  let refs := log.foldl (fun acc x => insertSorted x.ref acc) []
+  if refs.isEmpty then "-" else
+  ";".intercalate (refs.map fun r =>
+    s!"{r}={match lbls.find? (·.1 = r) with | some p => renderListing p.2 | none => "?"}")
+
 def Drv.op (d : Drv) (line : String) : Drv × String :=
+  match d.rl.cfgOp d.explicit d.started (toks line) with
+  | some (rl, out) => ({ d with rl := rl }, out)
+  | none =>
+  match parseDecl? (toks line) with
+  | some (ref, seg, ls) =>
+    let d := { d with started := true, segs := (ref, seg) :: d.segs.filter (·.1 ≠ ref) }
+    match d.rl.store ls with
+    | some l => ({ d with lbls := (ref, l) :: d.lbls.filter (·.1 ≠ ref) }.act (.storeSeries ref true), "ok")
+    | none => (d.act (.storeSeries ref false), "ok")
+  | none =>
+  let d := if (toks line).head? == some "script" then d else { d with started := true }
   match toks line with
   | ["script", id, oc] =>
     let id := id.toNat?.getD 0
     ({ d with script := d.script.filter (·.1 ≠ id) ++ [(id, oc.toList)] }, "ok")
-  | ["series", ref, _lid, kind, seg] =>
-    let ref := ref.toNat?.getD 0
-    let d := { d with segs := (ref, seg.toNat?.getD 0) :: d.segs.filter (·.1 ≠ ref) }
-    (d.act (.storeSeries ref (kind != "drop")), "ok")
   | ["sreset", idx] =>
     let idx := idx.toNat?.getD 0
     let gone := (d.segs.filter (·.2 < idx)).map (·.1)
@@ -140,7 +224,7 @@ def Drv.op (d : Drv) (line : String) : Drv × String :=
     (d, s!"recv={showLog s.received.reverse d.race} att={star (d.race || d.hardSeen) s.attemptCnt} " ++
         s!"failed={star (!d.race && d.hardSeen) s.failedCnt} retried={star d.race s.retriedCnt} " ++
         s!"old={s.droppedOld} dser={s.droppedSeriesCnt} dunk={s.droppedUnknown} bad=0 sentdiff=0 " ++
-        s!"pend={if !d.race && d.hardSeen then "*" else "0"}")
+        s!"pend={if !d.race && d.hardSeen then "*" else "0"} lbl={showLbls s.received.reverse d.lbls}")
   | _ => (d, "bad-op")
 
 def runOps (d : Drv) : List String → List String
@@ -157,7 +241,9 @@ def model (ops : List String) : List String :=
       let n := natOf kvs "n"
       if mss = 0 || cap = 0 || n = 0 then ops.map fun _ => "bad-case" else
       let chanCap := if cap / mss = 0 then 1 else cap / mss
-      "ok" :: runOps { s := init mss chanCap n, race := kvOf kvs "mode" == some "race", age := natOf kvs "age" = 1 } rest
+      let explicit := natOf kvs "rl" = 1
+      "ok" :: runOps { s := init mss chanCap n, race := kvOf kvs "mode" == some "race", age := natOf kvs "age" = 1,
+                       explicit := explicit, rl := if explicit then {} else legacyRL } rest
     | _ => ops.map fun _ => "bad-case"
   | [] => []
 
@@ -165,6 +251,10 @@ def model (ops : List String) : List String :=
 
 structure JSt where
   age : Bool
+  rl : RL := legacyRL
+  explicit : Bool := false
+  started : Bool := false
+  want : List (Nat × List Label) := []  -- every (ref, label set) a StoreSeries kept
   kept : List Nat := []
   dropped : List Nat := []
   everDropped : List Nat := []
@@ -200,6 +290,17 @@ def judgeEnd (j : JSt) (opToks outToks : List String) : Option String :=
     if j.everDropped.contains r then some s!"dropped-series-sent ref={r} id={id}"
     else some s!"out-of-scope-sample-sent ref={r} id={id}"
   | none =>
+  -- the samples of a kept series arrive with exactly relabel(series labels + external labels)
+  match (parseLbl ((kvOf outToks "lbl").getD "-")).findSome? (fun (p : Nat × List String) =>
+      (p.2.find? (fun l => !(match parseListing? l with
+        | some ls => j.want.any (fun w => w.1 = p.1 && w.2 == ls)
+        | none => false))).map (fun l => (p.1, l))) with
+  | some (r, l) =>
+    some s!"wrong-label-set ref={r} got={l} want={match j.want.find? (·.1 = r) with | some w => renderListing w.2 | none => "none"}"
+  | none =>
+  match raw.find? (fun (p : Nat × List Nat) => !p.2.isEmpty && !(parseLbl ((kvOf outToks "lbl").getD "-")).any (·.1 = p.1)) with
+  | some (r, _) => some s!"labels-not-reported ref={r}"
+  | none =>
   match raw.findSome? (fun (p : Nat × List Nat) => scanSeq p.1 reached [] p.2) with
   | some v => some v
   | none =>
@@ -224,12 +325,20 @@ def judgeEnd (j : JSt) (opToks outToks : List String) : Option String :=
 
 def judgeOps (j : JSt) (k : Nat) : List String → List String → Option String
   | op :: ops, out :: outs =>
+    match j.rl.cfgOp j.explicit j.started (toks op) with
+    | some (rl, _) => judgeOps { j with rl := rl } (k + 1) ops outs
+    | none =>
+    match parseDecl? (toks op) with
+    | some (ref, seg, ls) =>
+      let j := { j with started := true, segs := (ref, seg) :: j.segs.filter (·.1 ≠ ref) }
+      -- the documented order: external labels merged (the series' own label wins), then write relabeling
+      judgeOps (match j.rl.store ls with
+        | none => { j with dropped := ref :: j.dropped, everDropped := ref :: j.everDropped }
+        | some l => { j with kept := ref :: j.kept, want := (ref, l) :: j.want })
+        (k + 1) ops outs
+    | none =>
+    let j := if (toks op).head? == some "script" then j else { j with started := true }
     match toks op with
-    | ["series", ref, _, kind, seg] =>
-      let ref := ref.toNat?.getD 0
-      let j := { j with segs := (ref, seg.toNat?.getD 0) :: j.segs.filter (·.1 ≠ ref) }
-      judgeOps (if kind == "drop" then { j with dropped := ref :: j.dropped, everDropped := ref :: j.everDropped }
-                else { j with kept := ref :: j.kept }) (k + 1) ops outs
     | ["sreset", idx] =>
       let idx := idx.toNat?.getD 0
       let gone := (j.segs.filter (·.2 < idx)).map (·.1)
@@ -257,7 +366,9 @@ def judge (ops outs : List String) : String :=
   match ops, outs with
   | cfg :: rest, _ :: outs =>
     match toks cfg with
-    | "cfg" :: kvs => (judgeOps { age := natOf kvs "age" = 1 } 1 rest outs).getD "ok"
+    | "cfg" :: kvs =>
+      let explicit := natOf kvs "rl" = 1
+      (judgeOps { age := natOf kvs "age" = 1, explicit := explicit, rl := if explicit then {} else legacyRL } 1 rest outs).getD "ok"
     | _ => "ok"
   | _, _ => "ok"
 
